@@ -395,10 +395,16 @@ func baseOpts() *store.Options {
 
 // newSConfig: specs[0] is the followed primary's history; specs[1:] are forks. trunc>0: TruncateUptoTx(trunc) on
 // the followed primary before exporting.
-func newSConfig(name string, version int, fileSize int, specs [][]txSpec, trunc uint64, ext bool, window int, alts bool) *sconfig {
+func newSConfig(name string, version int, fileSize int, specs [][]txSpec, trunc uint64, ext bool, window int, alts bool, tweak ...func(*store.Options) *store.Options) *sconfig {
 	cf := &sconfig{name: name, ext: ext, window: window, byAlh: map[[sha256.Size]byte]label{}, minReadable: 1}
+	tw := func(o *store.Options) *store.Options {
+		for _, f := range tweak {
+			o = f(o)
+		}
+		return o
+	}
 	popts := func() *store.Options {
-		o := baseOpts().WithWriteTxHeaderVersion(version)
+		o := tw(baseOpts()).WithWriteTxHeaderVersion(version)
 		if fileSize > 0 {
 			o = o.WithFileSize(fileSize)
 		}
@@ -455,7 +461,7 @@ func newSConfig(name string, version int, fileSize int, specs [][]txSpec, trunc 
 		must(st.Close())
 	}
 	cf.ropts = func() *store.Options {
-		return baseOpts().WithExternalCommitAllowance(ext).WithMaxActiveTransactions(window)
+		return tw(baseOpts()).WithExternalCommitAllowance(ext).WithMaxActiveTransactions(window)
 	}
 	cf.events = deliveries(cf.prim, alts)
 	cf.events = append(cf.events, event{Kind: "restart"}, event{Kind: "waitidx"})
@@ -986,6 +992,14 @@ var forkMain = []txSpec{
 	{Ents: []entSpec{{"a", "B2", ""}}},
 	{Ents: []entSpec{{"b", "B3", ""}}},
 }
+var forkMainLarge = func() []txSpec {
+	big := txSpec{}
+	for i := 0; i < 60; i++ {
+		big.Ents = append(big.Ents, entSpec{fmt.Sprintf("k%02d-%s", i, strings.Repeat("x", 60)), "B2", ""})
+	}
+	return []txSpec{forkMain[0], big, forkMain[2]}
+}()
+
 var forkOld = []txSpec{
 	forkMain[0],
 	{Ents: []entSpec{{"a", "A2", ""}}},
@@ -1052,6 +1066,9 @@ func main() {
 		newSConfig("store-truncated-primary", 1, 64, [][]txSpec{histTrunc}, 3, false, 8, true),
 		newSConfig("store-window2", 1, 0, [][]txSpec{histV1}, 0, false, 2, false),
 		newSConfig("store-fork-extallow", 1, 0, [][]txSpec{forkMain, forkOld}, 0, true, 8, full()),
+		// the followed primary's tx 2 has a record larger than the 4 KiB read buffer, the fork's tx 2 is small
+		newSConfig("store-fork-extallow-largetx", 1, 1<<16, [][]txSpec{forkMainLarge, forkOld}, 0, true, 8, false,
+			func(o *store.Options) *store.Options { return o.WithMaxTxEntries(64).WithMaxKeyLen(80) }),
 	)
 	cfgs = append(cfgs, dbConfigs()...)
 	if c.ReplayPath != "" {
